@@ -136,6 +136,11 @@ def run_shard(desc):
             if i % nshards == si:
                 progs.append({"tree": t, "text": ref.Renderer().render(t), "vars": vars_})
                 labels.append(label)
+                if i % 5 == 0 and t[0] != "stmt":
+                    # the fault must also surface when the expression is a non-final statement
+                    t2 = ["stmt", [t, ["num", "5", 0]]]
+                    progs.append({"tree": t2, "text": ref.Renderer().render(t2), "vars": vars_})
+                    labels.append(label + ";")
     else:
         for _ in range(n):
             t = edge_tree(rnd, rnd.randint(1, 3))
